@@ -261,7 +261,8 @@ namespace OP2Utility::Archive
 			IndexEntry indexEntry;
 
 			uint64_t fileSize = volInfo.fileStreamReaders[i]->Length();
-			if (fileSize > UINT32_MAX) {
+			// The size is stored in a signed 32 bit field and in the 31 bit length of the block header
+			if (fileSize > static_cast<uint64_t>(INT32_MAX)) {
 				throw std::runtime_error("File " + volInfo.filesToPack[i] +
 					" is too large to fit inside a volume archive. Writing volume " + volumeFilename + " aborted.");
 			}
@@ -287,20 +288,23 @@ namespace OP2Utility::Archive
 		volInfo.indexTableLength = static_cast<uint32_t>(volInfo.fileCount()) * sizeof(IndexEntry);
 
 		// Calculate the zero padded length of the string table and index table
-		volInfo.paddedStringTableLength = (volInfo.stringTableLength + 7) & ~3;
-		volInfo.paddedIndexTableLength = (volInfo.indexTableLength + 3) & ~3;
-
-		if (volInfo.indexEntries.size() == 0) {
-			return;
+		const uint64_t paddedStringTableLength = (static_cast<uint64_t>(volInfo.stringTableLength) + 7) & ~static_cast<uint64_t>(3);
+		const uint64_t paddedIndexTableLength = (static_cast<uint64_t>(volInfo.indexTableLength) + 3) & ~static_cast<uint64_t>(3);
+		if (paddedStringTableLength > UINT32_MAX || paddedIndexTableLength > UINT32_MAX) {
+			throw std::runtime_error("Header tables are too long to create volume " + volumeFilename);
 		}
+		volInfo.paddedStringTableLength = static_cast<uint32_t>(paddedStringTableLength);
+		volInfo.paddedIndexTableLength = static_cast<uint32_t>(paddedIndexTableLength);
 
-		volInfo.indexEntries[0].dataBlockOffset = volInfo.paddedStringTableLength + volInfo.paddedIndexTableLength + 32;
-
-		// Calculate offsets to the files
-		for (std::size_t i = 1; i < volInfo.fileCount(); ++i)
+		// Calculate offsets to the files. Offsets are stored in 32 bit fields.
+		uint64_t dataBlockOffset = paddedStringTableLength + paddedIndexTableLength + 32;
+		for (std::size_t i = 0; i < volInfo.fileCount(); ++i)
 		{
-			const IndexEntry& previousIndex = volInfo.indexEntries[i - 1];
-			volInfo.indexEntries[i].dataBlockOffset = (previousIndex.dataBlockOffset + previousIndex.fileSize + 11) & ~3;
+			if (dataBlockOffset > UINT32_MAX) {
+				throw std::runtime_error("Packed files are too large to fit inside a volume archive. Writing volume " + volumeFilename + " aborted.");
+			}
+			volInfo.indexEntries[i].dataBlockOffset = static_cast<uint32_t>(dataBlockOffset);
+			dataBlockOffset = (dataBlockOffset + static_cast<uint64_t>(volInfo.indexEntries[i].fileSize) + 11) & ~static_cast<uint64_t>(3);
 		}
 	}
 
